@@ -3,8 +3,8 @@ From BV Require Import Base.Prelude Model.FileSeq Model.Pipeline Spec.C10_Spec S
   Proofs.C11_Proofs.
 Local Open Scope N_scope.
 
-Theorem c11_returns : C11_returns /\ C11_quiesces.
-Proof. exact (conj c11_returns_proof c11_quiesces_proof). Qed.
+Theorem c11_returns : C11_returns /\ C11_quiesces /\ C11_fires.
+Proof. exact (conj c11_returns_proof (conj c11_quiesces_proof c11_fires_proof)). Qed.
 Print Assumptions c11_returns.
 
 Theorem c11_error : C11_error.
@@ -44,6 +44,8 @@ Definition nv_run (f : fault) : option errc * bool * list N :=
 
 Example c11_nonvacuous :
   fixed (mkCfg nv_lay 2 (FOpen 1) false true true) /\
+  forallb (fun f => site_reached (mkCfg nv_lay 2 f false true true))
+    [FExists 1; FOpen 1; FHeader 0; FRead 1 2; FRead 0 4; FPre 1 2; FHandler 3] = true /\
   nv_run (FExists 1) = (Some EExists, true, []) /\
   nv_run (FOpen 1) = (Some EOpen, true, []) /\
   nv_run (FHeader 0) = (Some EHeader, true, []) /\
